@@ -40,8 +40,9 @@ SCALARS = [2.0, 0.5]
 
 def _imgs():
     rng = np.random.default_rng(42)
-    a0 = (rng.random((6, 6, 6)) + 0.5).astype(np.float32)
-    a1 = (rng.random((6, 6, 6)) + 0.25).astype(np.float32)
+    # quantised values: comparisons between expressions hit many exact ties (<= vs <, >= vs > differ only there)
+    a0 = (np.round(rng.random((6, 6, 6)) * 4) / 4 + 0.5).astype(np.float32)
+    a1 = (np.round(rng.random((6, 6, 6)) * 4) / 4 + 0.25).astype(np.float32)
     return a0, a1
 
 
@@ -64,6 +65,8 @@ def _bases():
         "C2": (C2, lambda img, scale: img * 3.0 + scale, "C"),
         "C3": (C3, lambda img, scale: ndi.shift(img, np.array((0.5, -1.0, 0.0)) / scale, order=1, prefilter=True, mode="nearest"), "C"),
     }
+    # NOTE: programs are evaluated on the image a1; P2 = a1 + scale and C2 = 3*img + scale tie with (img * 3 + ...) style expressions,
+    # and P1 = a0 * (1 + scale) takes quantised values that tie with a1-derived ones on many voxels.
 
 
 def _exprs(depth, ops):
